@@ -218,6 +218,9 @@ func runC16(c *core.Ctx) core.Meta {
 	}
 
 	// R16.5 flush: pipeline gated by isFlushing; flush clears both tables
+	// R16.6 nothing cached in a field survives a flush (flushstate.go)
+	checkFlushResets(c, "R16.6", atPkg, "Comp", []string{"middleware.runPipeline"}, []string{"middleware.handleCtrlRequest"}, 8)
+
 	st5 := c.Rule("R16.5", "requests are accepted/answered only while not flushing; the flush handler drops both tables", 3)
 	n5, ung5 := p.GuardedUp(func(in ssa.Instruction) bool { return SendOn(in, "topPort") || SendOn(in, "translationPort") }, BoolFieldCut("Comp.isFlushing", false))
 	st5.Instances += n5
